@@ -350,3 +350,932 @@ Lemma feed_raise_resets : forall t d s s' o,
   feed t s d = (s', o, Raised) ->
   s' = reset /\ exists o' ty, o = o' ++ [Error ty] /\ has_error o' = false.
 Proof. intros. eapply (feed_raise_resets_n t (length d)); eauto. Qed.
+
+(* ------------------------------------------------------------------ more list facts *)
+Lemma drop_cons : forall n x l, 0 <= n -> drop (1 + n) (x :: l) = drop n l.
+Proof.
+  intros. unfold drop. replace (Z.to_nat (1 + n)) with (S (Z.to_nat n)) by lia. reflexivity.
+Qed.
+
+Lemma drop_app_le : forall n a b, n <= len a -> drop n (a ++ b) = drop n a ++ b.
+Proof.
+  intros. unfold drop, len in *. rewrite skipn_app.
+  replace (Z.to_nat n - length a)%nat with O by lia. reflexivity.
+Qed.
+
+(* a field inside the first part of a list does not depend on what follows *)
+Lemma field_app : forall lo ls h b, 0 <= lo -> 0 <= ls -> lo + ls <= len h ->
+  take ls (drop lo (h ++ b)) = take ls (drop lo h).
+Proof.
+  intros. rewrite drop_app_le by lia. apply take_app_le.
+  rewrite len_drop_any. lia.
+Qed.
+
+Lemma app_eq_len : forall (a a' b b' : list Z), len a = len a' -> a ++ b = a' ++ b' -> a = a' /\ b = b'.
+Proof.
+  induction a as [|x a IH]; intros [|y a'] b b' Hl H.
+  - auto.
+  - rewrite len_nil, len_cons in Hl. pose proof (len_nonneg a'). lia.
+  - rewrite len_nil, len_cons in Hl. pose proof (len_nonneg a). lia.
+  - simpl in H. inversion H; subst. rewrite !len_cons in Hl.
+    destruct (IH a' b b') as [-> ->]; [lia|assumption|]. auto.
+Qed.
+
+(* two ways of cutting the same list *)
+Lemma app_eq_cut : forall (a b x y : list Z), a ++ x = b ++ y -> len a <= len b ->
+  exists m, b = a ++ m /\ x = m ++ y.
+Proof.
+  intros a b x y H Hl.
+  destruct (split_at (len a) b) as (b1 & b2 & -> & Hb1); [pose proof (len_nonneg a); lia|].
+  rewrite <- app_assoc in H.
+  destruct (app_eq_len a b1 x (b2 ++ y)) as [-> ->]; [lia|assumption|].
+  exists b2. auto.
+Qed.
+
+(* ------------------------------------------------------------------ one packet *)
+Lemma lookup_wf : forall t ty i, wf_table t = true -> lookup t ty = Some i ->
+  1 <= i_ls i /\ 0 <= i_lo i /\ i_us i = i_ls i.
+Proof.
+  induction t as [|[k j] t IH]; intros ty i Hwf H; [discriminate|].
+  simpl in H. change (wf_table ((k, j) :: t)) with (wf_info (k, j) && wf_table t) in Hwf.
+  apply andb_true_iff in Hwf. destruct Hwf as [Hj Ht].
+  destruct (k =? ty).
+  - inversion H; subst. unfold wf_info in Hj.
+    repeat (apply andb_true_iff in Hj; destruct Hj as [Hj ?]).
+    repeat split; [apply Z.leb_le|apply Z.leb_le|apply Z.eqb_eq]; assumption.
+  - eauto.
+Qed.
+
+Lemma feed_type_ok : forall t ty i d, lookup t ty = Some i ->
+  feed t reset (ty :: d) = feed t (mkP NeedLength (i_ls i + i_lo i) [ty] (Some i)) d.
+Proof.
+  intros t ty i d H. change (ty :: d) with ([ty] ++ d).
+  rewrite feed_fill by reflexivity.
+  unfold fin. cbn. rewrite H. cbn. apply prepend_nil.
+Qed.
+
+Lemma feed_type_bad : forall t ty d, lookup t ty = None ->
+  feed t reset (ty :: d) = (reset, [Error ty], Raised).
+Proof.
+  intros t ty d H. change (ty :: d) with ([ty] ++ d).
+  rewrite feed_fill by reflexivity.
+  unfold fin. cbn. rewrite H. reflexivity.
+Qed.
+
+Lemma feed_header : forall t hs pk i h d, 0 < hs -> len h = hs ->
+  feed t (mkP NeedLength hs pk (Some i)) (h ++ d) =
+  let L := le_decode (take (i_us i) (drop (1 + i_lo i) (pk ++ h))) in
+  if L =? 0 then prepend [Packet (pk ++ h)] (feed t reset d)
+  else feed t (mkP NeedBody L (pk ++ h) (Some i)) d.
+Proof.
+  intros t hs pk i h d Hhs Hh. rewrite feed_fill by assumption.
+  unfold fin. cbn [acc p_st p_needed p_pkt p_info info_or_zero].
+  cbv zeta. destruct (_ =? 0); [reflexivity|apply prepend_nil].
+Qed.
+
+Lemma feed_body : forall t L pk inf b d, 0 < L -> len b = L ->
+  feed t (mkP NeedBody L pk inf) (b ++ d) = prepend [Packet (pk ++ b)] (feed t reset d).
+Proof.
+  intros t L pk inf b d HL Hb. rewrite feed_fill by assumption.
+  unfold fin. cbn [acc p_st p_needed p_pkt p_info].
+  replace (L - len b =? 0) with true by (symmetry; apply Z.eqb_eq; lia).
+  reflexivity.
+Qed.
+
+(* the shape of a well-formed packet *)
+Lemma wf_packet_shape : forall t p, wf_table t = true -> wf_packet t p = true ->
+  exists ty i h b, p = ty :: h ++ b /\ lookup t ty = Some i /\
+    1 <= i_ls i /\ 0 <= i_lo i /\ i_us i = i_ls i /\
+    len h = i_ls i + i_lo i /\ len b = le_decode (take (i_ls i) (drop (i_lo i) h)) /\
+    bytes_ok p = true.
+Proof.
+  intros t [|ty r] Ht H; [discriminate|]. unfold wf_packet in H.
+  destruct (lookup t ty) as [i|] eqn:Hl; [|discriminate].
+  destruct (lookup_wf _ _ _ Ht Hl) as (H1 & H2 & H3).
+  apply andb_true_iff in H. destruct H as [H Hlen].
+  apply andb_true_iff in H. destruct H as [Hok Hhs].
+  apply Z.leb_le in Hhs. apply Z.eqb_eq in Hlen.
+  destruct (split_at (i_ls i + i_lo i) r) as (h & b & -> & Hh); [lia|].
+  exists ty, i, h, b. repeat split; try assumption.
+  rewrite field_app in Hlen by lia. rewrite len_app in Hlen. lia.
+Qed.
+
+(* a well-formed packet at a packet boundary is emitted whole, whatever follows it
+   in the same call; the parser is back in its initial state right after it *)
+Lemma feed_packet : forall t p d, wf_table t = true -> wf_packet t p = true ->
+  feed t reset (p ++ d) = prepend [Packet p] (feed t reset d).
+Proof.
+  intros t p d Ht Hp.
+  destruct (wf_packet_shape _ _ Ht Hp) as (ty & i & h & b & -> & Hl & H1 & H2 & H3 & Hh & Hb & Hok).
+  change ((ty :: h ++ b) ++ d) with (ty :: ((h ++ b) ++ d)).
+  rewrite (feed_type_ok _ _ _ _ Hl), <- app_assoc, feed_header by lia.
+  cbv zeta. change ([ty] ++ h) with (ty :: h).
+  rewrite drop_cons, H3 by assumption. rewrite <- Hb.
+  destruct (len b =? 0) eqn:Hz.
+  - apply Z.eqb_eq in Hz. apply len_zero in Hz. subst b. rewrite app_nil_r. reflexivity.
+  - apply Z.eqb_neq in Hz. pose proof (len_nonneg b).
+    rewrite feed_body by lia. reflexivity.
+Qed.
+
+(* a proper prefix of a well-formed packet produces no output and no error *)
+Lemma feed_partial : forall t p q r, wf_table t = true -> wf_packet t p = true ->
+  p = q ++ r -> r <> [] -> exists s, feed t reset q = (s, [], Ok) /\ is_init s = (len q =? 0).
+Proof.
+  intros t p q r Ht Hp Hq Hr.
+  destruct (wf_packet_shape _ _ Ht Hp) as (ty & i & h & b & -> & Hl & H1 & H2 & H3 & Hh & Hb & Hok).
+  destruct q as [|ty' q1].
+  { exists reset. split; reflexivity. }
+  simpl in Hq. inversion Hq; subst ty'. clear Hq. rename H4 into Hq.
+  rewrite (feed_type_ok _ _ _ _ Hl).
+  assert (Hq0 : (len (ty :: q1) =? 0) = false).
+  { apply Z.eqb_neq. rewrite len_cons. pose proof (len_nonneg q1). lia. }
+  rewrite Hq0.
+  destruct (Z_lt_le_dec (len q1) (i_ls i + i_lo i)) as [Hs|Hge].
+  - rewrite feed_short by assumption. eexists. split; reflexivity.
+  - destruct (split_at (i_ls i + i_lo i) q1) as (h' & q2 & -> & Hh'); [lia|].
+    rewrite <- app_assoc in Hq.
+    destruct (app_eq_len h h' b (q2 ++ r)) as [<- Hbq]; [lia|assumption|].
+    rewrite feed_header by lia. cbv zeta. change ([ty] ++ h) with (ty :: h).
+    rewrite drop_cons, H3 by assumption. rewrite <- Hb.
+    assert (len q2 < len b).
+    { rewrite Hbq, len_app. destruct r; [congruence|]. rewrite len_cons.
+      pose proof (len_nonneg r). lia. }
+    pose proof (len_nonneg q2).
+    replace (len b =? 0) with false by (symmetry; apply Z.eqb_neq; lia).
+    rewrite feed_short by assumption. eexists. split; reflexivity.
+Qed.
+
+(* ------------------------------------------------------------------ streams of packets *)
+Lemma feed_stream : forall t pkts d, wf_table t = true -> forallb (wf_packet t) pkts = true ->
+  feed t reset (concat pkts ++ d) = prepend (map Packet pkts) (feed t reset d).
+Proof.
+  intros t pkts d Ht. induction pkts as [|p pkts IH]; intros H.
+  - simpl. rewrite prepend_nil. reflexivity.
+  - simpl in H. apply andb_true_iff in H. destruct H as [Hp Hr].
+    simpl concat. rewrite <- app_assoc, feed_packet, IH by assumption.
+    rewrite prepend_prepend. reflexivity.
+Qed.
+
+Lemma feed_stream_all : forall t pkts, wf_table t = true -> forallb (wf_packet t) pkts = true ->
+  feed t reset (concat pkts) = (reset, map Packet pkts, Ok).
+Proof.
+  intros. rewrite <- (app_nil_r (concat pkts)), feed_stream, feed_nil by assumption.
+  simpl. rewrite app_nil_r. reflexivity.
+Qed.
+
+Lemma wf_packet_nonempty : forall t p, wf_packet t p = true -> 1 <= len p.
+Proof. intros t [|x p] H; [discriminate|]. rewrite len_cons. pose proof (len_nonneg p). lia. Qed.
+
+(* after any prefix of a stream exactly the packets wholly inside it have been emitted *)
+Lemma feed_prefix : forall t pkts pre rest, wf_table t = true ->
+  forallb (wf_packet t) pkts = true -> concat pkts = pre ++ rest ->
+  exists s, feed t reset pre = (s, map Packet (whole_within pkts (len pre)), Ok).
+Proof.
+  intros t pkts. induction pkts as [|p pkts IH]; intros pre rest Ht H Hc.
+  - simpl in Hc. destruct pre; [|discriminate]. exists reset. reflexivity.
+  - simpl in H. apply andb_true_iff in H. destruct H as [Hp Hr].
+    simpl in Hc. cbn [whole_within].
+    destruct (len p <=? len pre) eqn:Hle.
+    + apply Z.leb_le in Hle.
+      destruct (app_eq_cut p pre (concat pkts) rest Hc Hle) as (m & -> & Hm).
+      destruct (IH m rest Ht Hr Hm) as (s & Hs).
+      exists s. rewrite feed_packet, Hs by assumption. simpl.
+      rewrite len_app. replace (len p + len m - len p) with (len m) by lia. reflexivity.
+    + apply Z.leb_gt in Hle.
+      symmetry in Hc.
+      destruct (app_eq_cut pre p rest (concat pkts) Hc) as (m & Hpm & Hm); [lia|].
+      destruct (feed_partial t p pre m Ht Hp Hpm) as (s & Hs & _).
+      { intros ->. rewrite app_nil_r in Hpm. subst. lia. }
+      exists s. assumption.
+Qed.
+
+(* ------------------------------------------------------------------ chunk lists *)
+Lemma feeds_app : forall t c1 c2 s,
+  feeds t s (c1 ++ c2) =
+  let '(s1, o1) := feeds t s c1 in let '(s2, o2) := feeds t s1 c2 in (s2, o1 ++ o2).
+Proof.
+  intros t c1. induction c1 as [|c c1 IH]; intros c2 s.
+  - simpl. destruct (feeds t s c2). reflexivity.
+  - simpl. destruct (feed t s c) as [[s1 o1] st1]. rewrite IH.
+    destruct (feeds t s1 c1) as [s2 o2]. destruct (feeds t s2 c2) as [s3 o3]. reflexivity.
+Qed.
+
+(* as long as nothing raises, feeding chunk by chunk is feeding the concatenation *)
+Lemma feeds_concat : forall t chunks s s' o,
+  feed t s (concat chunks) = (s', o, Ok) ->
+  fst (feeds t s chunks) = s' /\ concat (snd (feeds t s chunks)) = o.
+Proof.
+  intros t chunks. induction chunks as [|c chunks IH]; intros s s' o H.
+  - simpl in H. inversion H. auto.
+  - simpl concat in H. rewrite feed_app in H. simpl.
+    destruct (feed t s c) as [[s1 o1] st1]. simpl in H.
+    destruct st1; try discriminate.
+    destruct (feed t s1 (concat chunks)) as [[s2 o2] st2] eqn:H2. simpl in H.
+    inversion H; subst. destruct (IH s1 s' o2 H2) as [Hs Ho].
+    destruct (feeds t s1 chunks) as [s3 o3]. simpl in *. subst. auto.
+Qed.
+
+(* chunking irrelevance *)
+Lemma chunking_irrelevant : forall t pkts chunks, wf_table t = true ->
+  forallb (wf_packet t) pkts = true -> concat chunks = concat pkts ->
+  fst (feeds t reset chunks) = reset /\
+  concat (snd (feeds t reset chunks)) = map Packet pkts.
+Proof.
+  intros t pkts chunks Ht H Hc. apply feeds_concat. rewrite Hc.
+  apply feed_stream_all; assumption.
+Qed.
+
+(* none early, none late: after any number of chunks *)
+Lemma none_early : forall t pkts chunks1 rest, wf_table t = true ->
+  forallb (wf_packet t) pkts = true -> concat pkts = concat chunks1 ++ rest ->
+  concat (snd (feeds t reset chunks1)) = map Packet (whole_within pkts (len (concat chunks1))).
+Proof.
+  intros t pkts chunks1 rest Ht H Hc.
+  destruct (feed_prefix t pkts (concat chunks1) rest Ht H Hc) as (s & Hs).
+  apply (feeds_concat t chunks1 reset s _ Hs).
+Qed.
+
+(* ------------------------------------------------------------------ errors *)
+Lemma feed_stream_then_bad : forall t pkts bad junk, wf_table t = true ->
+  forallb (wf_packet t) pkts = true -> lookup t bad = None ->
+  feed t reset (concat pkts ++ bad :: junk) = (reset, map Packet pkts ++ [Error bad], Raised).
+Proof.
+  intros. rewrite feed_stream, feed_type_bad by assumption. reflexivity.
+Qed.
+
+(* An unknown type byte at a packet boundary, in a chunk that may start inside a packet
+   and is preceded by any chunking of the stream before it: the packets before it are
+   delivered, one error is reported, the rest of that chunk is discarded, the parser is
+   back in its initial state and the chunks fed afterwards are framed correctly. *)
+Lemma error_then_recover : forall t pkts1 chunks1 post bad junk pkts2 chunks2,
+  wf_table t = true ->
+  forallb (wf_packet t) pkts1 = true -> forallb (wf_packet t) pkts2 = true ->
+  concat pkts1 = concat chunks1 ++ post -> lookup t bad = None ->
+  concat chunks2 = concat pkts2 ->
+  let '(s, outs) := feeds t reset (chunks1 ++ [post ++ bad :: junk] ++ chunks2) in
+  s = reset /\ concat outs = map Packet pkts1 ++ [Error bad] ++ map Packet pkts2.
+Proof.
+  intros t pkts1 chunks1 post bad junk pkts2 chunks2 Ht H1 H2 Hc1 Hbad Hc2.
+  pose proof (feed_stream_then_bad t pkts1 bad junk Ht H1 Hbad) as Hall.
+  rewrite Hc1, <- app_assoc, feed_app in Hall.
+  destruct (feed_prefix t pkts1 (concat chunks1) post Ht H1 Hc1) as (sA & HA).
+  rewrite HA in Hall. simpl in Hall.
+  destruct (feeds_concat t chunks1 reset sA _ HA) as [HsA HoA].
+  rewrite feeds_app.
+  destruct (feeds t reset chunks1) as [s1 o1]. simpl in HsA, HoA. subst s1.
+  cbn [app feeds].
+  destruct (feed t sA (post ++ bad :: junk)) as [[sB oB] stB]. simpl in Hall.
+  inversion Hall as [[HsB Hcat HstB]]. subst sB stB.
+  destruct (chunking_irrelevant t pkts2 chunks2 Ht H2 Hc2) as [Hs2 Ho2].
+  destruct (feeds t reset chunks2) as [s2 o2]. simpl in Hs2, Ho2.
+  split; [assumption|].
+  rewrite concat_app. cbn [concat]. rewrite HoA, Ho2, app_assoc, Hcat.
+  rewrite <- app_assoc. reflexivity.
+Qed.
+
+(* whatever state an error is raised from, the parser is in its initial state afterwards,
+   so any well-formed stream fed afterwards (in any chunking) is framed correctly *)
+Lemma recover_after_any_error : forall t s d s' o pkts chunks, wf_table t = true ->
+  feed t s d = (s', o, Raised) ->
+  forallb (wf_packet t) pkts = true -> concat chunks = concat pkts ->
+  fst (feeds t s' chunks) = reset /\ concat (snd (feeds t s' chunks)) = map Packet pkts.
+Proof.
+  intros t s d s' o pkts chunks Ht Hr Hp Hc.
+  destruct (feed_raise_resets _ _ _ _ _ Hr) as [-> _].
+  apply chunking_irrelevant; assumption.
+Qed.
+
+(* ------------------------------------------------------------------ server life cycle *)
+Lemma srv_run_app : forall t a b s,
+  srv_run t s (a ++ b) =
+  let '(s1, o1) := srv_run t s a in let '(s2, o2) := srv_run t s1 b in (s2, o1 ++ o2).
+Proof.
+  intros t a. induction a as [|x a IH]; intros b s.
+  - simpl. destruct (srv_run t s b). reflexivity.
+  - simpl. destruct (srv_step t s x) as [s1 o1]. rewrite IH.
+    destruct (srv_run t s1 a) as [s2 o2]. destruct (srv_run t s2 b) as [s3 o3]. reflexivity.
+Qed.
+
+Lemma srv_run_data : forall t chunks s, srv_run t s (map Data chunks) = feeds t s chunks.
+Proof.
+  intros t chunks. induction chunks as [|c chunks IH]; intros s; [reflexivity|].
+  simpl. destruct (feed t s c) as [[s1 o1] st1]. rewrite IH. reflexivity.
+Qed.
+
+(* a new client is framed from the initial state, whatever state the shared parser was
+   left in *)
+Lemma new_client_fresh_state : forall t s pkts chunks, wf_table t = true ->
+  forallb (wf_packet t) pkts = true -> concat chunks = concat pkts ->
+  let '(s', outs) := srv_run t s (Connect :: map Data chunks) in
+  s' = reset /\ concat outs = map Packet pkts.
+Proof.
+  intros t s pkts chunks Ht H Hc. cbn [srv_run srv_step]. rewrite srv_run_data.
+  destruct (chunking_irrelevant t pkts chunks Ht H Hc) as [Hs Ho].
+  destruct (feeds t reset chunks) as [s2 o2]. simpl in *. auto.
+Qed.
+
+(* ... in particular after any history of earlier clients, the last of which was cut off
+   at an arbitrary byte position *)
+Lemma new_client_fresh : forall t history pkts chunks, wf_table t = true ->
+  forallb (wf_packet t) pkts = true -> concat chunks = concat pkts ->
+  let '(_, outs0) := srv_run t reset (history ++ [Lost]) in
+  let '(s', outs) := srv_run t reset ((history ++ [Lost]) ++ Connect :: map Data chunks) in
+  s' = reset /\ concat outs = concat outs0 ++ map Packet pkts.
+Proof.
+  intros t history pkts chunks Ht H Hc. generalize (history ++ [Lost]). intros h1.
+  rewrite srv_run_app.
+  destruct (srv_run t reset h1) as [s1 o1].
+  pose proof (new_client_fresh_state t s1 pkts chunks Ht H Hc) as Hn.
+  destruct (srv_run t s1 (Connect :: map Data chunks)) as [s2 o2].
+  cbv beta iota in Hn. destruct Hn as [Hs Ho]. split; [assumption|]. rewrite concat_app, Ho. reflexivity.
+Qed.
+
+Definition payloads (msgs : list (option (list Z))) : list Z :=
+  concat (map (fun m => match m with Some b => b | None => [] end) msgs).
+
+Lemma ws_messages_concat : forall t msgs s s' o,
+  feed t s (payloads msgs) = (s', o, Ok) ->
+  fst (ws_messages t s msgs) = s' /\ concat (snd (ws_messages t s msgs)) = o.
+Proof.
+  intros t msgs. induction msgs as [|[m|] msgs IH]; intros s s' o H.
+  - simpl in H. inversion H. auto.
+  - unfold payloads in H. simpl in H. fold (payloads msgs) in H. rewrite feed_app in H.
+    cbn [ws_messages]. destruct (feed t s m) as [[s1 o1] st1]. simpl in H.
+    destruct st1; try discriminate.
+    destruct (feed t s1 (payloads msgs)) as [[s2 o2] st2] eqn:H2. simpl in H.
+    inversion H; subst. destruct (IH s1 s' o2 H2) as [Hs Ho].
+    destruct (ws_messages t s1 msgs) as [s3 o3]. simpl in *. subst. auto.
+  - unfold payloads in H. simpl in H. fold (payloads msgs) in H.
+    cbn [ws_messages]. destruct (IH s s' o H) as [Hs Ho].
+    destruct (ws_messages t s msgs) as [s3 o3]. simpl in *. auto.
+Qed.
+
+(* WebSocket server: the binary messages of a new connection (text messages in between
+   are ignored) are framed from the initial state whatever the previous connection left *)
+Lemma ws_new_client_fresh : forall t s pkts msgs, wf_table t = true ->
+  forallb (wf_packet t) pkts = true -> payloads msgs = concat pkts ->
+  let '(s', outs) := ws_connection t s msgs in
+  s' = reset /\ concat outs = map Packet pkts.
+Proof.
+  intros t s pkts msgs Ht H Hc. unfold ws_connection.
+  pose proof (feed_stream_all t pkts Ht H) as Hall. rewrite <- Hc in Hall.
+  destruct (ws_messages_concat t msgs reset _ _ Hall) as [Hs Ho].
+  destruct (ws_messages t reset msgs) as [s2 o2]. simpl in *. auto.
+Qed.
+
+(* ------------------------------------------------------------------ pull readers *)
+Lemma take_1_cons : forall x l, take 1 (x :: l) = [x].
+Proof. reflexivity. Qed.
+
+Lemma drop_1_cons : forall x l, drop 1 (x :: l) = l.
+Proof. reflexivity. Qed.
+
+Lemma pr_next_nil : forall t, pr_next t [] = (RAtEnd, []).
+Proof. reflexivity. Qed.
+
+Lemma pr_next_bad : forall t ty r, lookup t ty = None -> pr_next t (ty :: r) = (RInvalid ty, r).
+Proof. intros. unfold pr_next. rewrite take_1_cons, drop_1_cons. cbn. rewrite H. reflexivity. Qed.
+
+Lemma pr_next_short_header : forall t ty i r, lookup t ty = Some i -> len r < i_ls i + i_lo i ->
+  fst (pr_next t (ty :: r)) = RTooShort.
+Proof.
+  intros. unfold pr_next. rewrite take_1_cons, drop_1_cons. cbn [len length Z.of_nat hd].
+  cbn. rewrite H. cbv zeta. rewrite take_all by lia.
+  replace (len r =? i_ls i + i_lo i) with false by (symmetry; apply Z.eqb_neq; lia).
+  reflexivity.
+Qed.
+
+Lemma pr_next_short_body : forall t ty i h r2, lookup t ty = Some i ->
+  len h = i_ls i + i_lo i -> len r2 < le_decode (take (i_us i) (drop (i_lo i) h)) ->
+  fst (pr_next t (ty :: h ++ r2)) = RTooShort.
+Proof.
+  intros t ty i h r2 Hl Hh Hr. unfold pr_next. rewrite take_1_cons, drop_1_cons. cbn.
+  rewrite Hl. cbv zeta. rewrite <- Hh, take_app_len, drop_app_len, Z.eqb_refl. cbn [negb].
+  rewrite take_all by lia.
+  match goal with |- context [len r2 =? ?L] =>
+    replace (len r2 =? L) with false by (symmetry; apply Z.eqb_neq; lia) end.
+  reflexivity.
+Qed.
+
+Lemma pr_next_packet : forall t p d, wf_table t = true -> wf_packet t p = true ->
+  pr_next t (p ++ d) = (RPacket p, d).
+Proof.
+  intros t p d Ht Hp.
+  destruct (wf_packet_shape _ _ Ht Hp) as (ty & i & h & b & -> & Hl & H1 & H2 & H3 & Hh & Hb & Hok).
+  change ((ty :: h ++ b) ++ d) with (ty :: ((h ++ b) ++ d)).
+  unfold pr_next. rewrite take_1_cons, drop_1_cons. cbn. rewrite Hl. cbv zeta.
+  rewrite <- app_assoc, <- Hh, take_app_len, drop_app_len, Z.eqb_refl. cbn [negb].
+  rewrite H3, <- Hb, take_app_len, drop_app_len, Z.eqb_refl. reflexivity.
+Qed.
+
+Lemma push_summary_nil : forall t, push_summary t [] = ([], RAtEnd).
+Proof. reflexivity. Qed.
+
+Lemma push_summary_bad : forall t ty r, lookup t ty = None ->
+  push_summary t (ty :: r) = ([], RInvalid ty).
+Proof. intros. unfold push_summary. rewrite feed_type_bad by assumption. reflexivity. Qed.
+
+Lemma push_summary_short_header : forall t ty i r, lookup t ty = Some i ->
+  len r < i_ls i + i_lo i -> push_summary t (ty :: r) = ([], RTooShort).
+Proof.
+  intros. unfold push_summary. rewrite (feed_type_ok _ _ _ _ H), feed_short by assumption.
+  reflexivity.
+Qed.
+
+Lemma push_summary_short_body : forall t ty i h r2, lookup t ty = Some i ->
+  0 < i_ls i + i_lo i -> 0 <= i_lo i ->
+  len h = i_ls i + i_lo i -> len r2 < le_decode (take (i_us i) (drop (i_lo i) h)) ->
+  push_summary t (ty :: h ++ r2) = ([], RTooShort).
+Proof.
+  intros t ty i h r2 Hl Hhs Hlo Hh Hr. unfold push_summary.
+  rewrite (feed_type_ok _ _ _ _ Hl), feed_header by assumption. cbv zeta.
+  change ([ty] ++ h) with (ty :: h). rewrite drop_cons by assumption.
+  pose proof (len_nonneg r2).
+  match goal with |- context [?L =? 0] =>
+    replace (L =? 0) with false by (symmetry; apply Z.eqb_neq; lia) end.
+  rewrite feed_short by assumption. reflexivity.
+Qed.
+
+Lemma push_summary_packet : forall t p d, wf_table t = true -> wf_packet t p = true ->
+  push_summary t (p ++ d) = let '(ps, e) := push_summary t d in (p :: ps, e).
+Proof.
+  intros. unfold push_summary. rewrite feed_packet by assumption.
+  destruct (feed t reset d) as [[s o] st]. reflexivity.
+Qed.
+
+(* every byte string is empty, starts with an unknown type, ends inside a header, ends
+   inside a body, or starts with a well-formed packet *)
+Lemma classify : forall t data, wf_table t = true -> bytes_ok data = true ->
+  data = [] \/
+  (exists ty r, data = ty :: r /\ lookup t ty = None) \/
+  (exists ty i r, data = ty :: r /\ lookup t ty = Some i /\ len r < i_ls i + i_lo i) \/
+  (exists ty i h r2, data = ty :: h ++ r2 /\ lookup t ty = Some i /\
+     0 < i_ls i + i_lo i /\ 0 <= i_lo i /\ len h = i_ls i + i_lo i /\
+     len r2 < le_decode (take (i_us i) (drop (i_lo i) h))) \/
+  (exists p rest, data = p ++ rest /\ wf_packet t p = true).
+Proof.
+  intros t [|ty r] Ht Hok; [left; reflexivity|right].
+  destruct (lookup t ty) as [i|] eqn:Hl; [right|left; exists ty, r; split; [reflexivity|assumption]].
+  destruct (lookup_wf _ _ _ Ht Hl) as (H1 & H2 & H3).
+  destruct (Z_lt_le_dec (len r) (i_ls i + i_lo i)) as [Hs|Hge];
+    [left; exists ty, i, r; repeat split; assumption|right].
+  destruct (split_at (i_ls i + i_lo i) r) as (h & r2 & -> & Hh); [lia|].
+  set (L := le_decode (take (i_us i) (drop (i_lo i) h))).
+  destruct (Z_lt_le_dec (len r2) L) as [Hs|Hge2].
+  { left. exists ty, i, h, r2. repeat split; try assumption; lia. }
+  right.
+  assert (HL : 0 <= L).
+  { apply le_decode_nonneg, bytes_ok_take, bytes_ok_drop.
+    change (ty :: h ++ r2) with ([ty] ++ h ++ r2) in Hok.
+    rewrite !bytes_ok_app in Hok.
+    apply andb_true_iff in Hok. destruct Hok as [_ Hok].
+    apply andb_true_iff in Hok. tauto. }
+  destruct (split_at L r2) as (b & rest & -> & Hb); [lia|].
+  exists (ty :: h ++ b), rest. split.
+  { simpl. rewrite <- app_assoc. reflexivity. }
+  unfold wf_packet. rewrite Hl.
+  change (ty :: h ++ b ++ rest) with ([ty] ++ h ++ b ++ rest) in Hok.
+  change (ty :: h ++ b) with ([ty] ++ h ++ b).
+  rewrite !bytes_ok_app in Hok. rewrite !bytes_ok_app.
+  apply andb_true_iff in Hok. destruct Hok as [Hty Hok].
+  apply andb_true_iff in Hok. destruct Hok as [Hbh Hok].
+  apply andb_true_iff in Hok. destruct Hok as [Hbb _].
+  rewrite Hty, Hbh, Hbb. cbn [andb].
+  apply andb_true_iff. split.
+  - apply Z.leb_le. rewrite len_app. pose proof (len_nonneg b). lia.
+  - apply Z.eqb_eq. rewrite field_app by lia. rewrite len_app, Hb, Hh. unfold L. rewrite H3. lia.
+Qed.
+
+(* The blocking pull reader and the push parser agree on EVERY byte string (not only
+   well-formed streams): same packets, same kind of ending. *)
+Lemma pull_push_agree_n : forall t n data, wf_table t = true -> bytes_ok data = true ->
+  (length data < n)%nat -> pull_all (pr_next t) n data = push_summary t data.
+Proof.
+  induction n as [|n IH]; intros data Ht Hok Hn; [lia|].
+  cbn [pull_all].
+  destruct (classify t data Ht Hok) as
+    [-> | [(ty & r & -> & Hl) | [(ty & i & r & -> & Hl & Hs) |
+     [(ty & i & h & r2 & -> & Hl & Hhs & Hlo & Hh & Hs) | (p & rest & -> & Hp)]]]].
+  - rewrite pr_next_nil, push_summary_nil. reflexivity.
+  - rewrite pr_next_bad, push_summary_bad by assumption. reflexivity.
+  - rewrite (push_summary_short_header _ _ _ _ Hl Hs).
+    pose proof (pr_next_short_header _ _ _ _ Hl Hs) as E.
+    destruct (pr_next t (ty :: r)) as [e x]. simpl in E. subst e. reflexivity.
+  - rewrite (push_summary_short_body _ _ _ _ _ Hl Hhs Hlo Hh Hs).
+    pose proof (pr_next_short_body _ _ _ _ _ Hl Hh Hs) as E.
+    destruct (pr_next t (ty :: h ++ r2)) as [e x]. simpl in E. subst e. reflexivity.
+  - rewrite pr_next_packet, push_summary_packet by assumption.
+    rewrite IH; [reflexivity|assumption| |].
+    + rewrite bytes_ok_app in Hok. apply andb_true_iff in Hok. tauto.
+    + rewrite app_length in Hn. pose proof (wf_packet_nonempty _ _ Hp) as Hp1.
+      unfold len in Hp1. lia.
+Qed.
+
+Lemma pull_push_agree : forall t data, wf_table t = true -> bytes_ok data = true ->
+  pr_all t data = push_summary t data.
+Proof. intros. apply pull_push_agree_n; try assumption. lia. Qed.
+
+(* the asynchronous reader differs only in reporting a clean end as an incomplete read *)
+Lemma apr_all_pr_all_n : forall t n data,
+  pull_all (apr_next t) n data =
+  let '(ps, e) := pull_all (pr_next t) n data in (ps, async_end e).
+Proof.
+  induction n as [|n IH]; intros data; [reflexivity|].
+  cbn [pull_all]. unfold apr_next.
+  destruct (pr_next t data) as [[p| |ty| |] rest]; try reflexivity.
+  rewrite IH. destruct (pull_all (pr_next t) n rest). reflexivity.
+Qed.
+
+Lemma async_pull_push_agree : forall t data, wf_table t = true -> bytes_ok data = true ->
+  apr_all t data = let '(ps, e) := push_summary t data in (ps, async_end e).
+Proof.
+  intros. unfold apr_all. rewrite apr_all_pr_all_n.
+  fold (pr_all t data). rewrite pull_push_agree by assumption. reflexivity.
+Qed.
+
+(* on a stream of well-formed packets both pull readers return exactly the packets *)
+Lemma pull_stream : forall t pkts, wf_table t = true -> forallb (wf_packet t) pkts = true ->
+  bytes_ok (concat pkts) = true /\
+  pr_all t (concat pkts) = (pkts, RAtEnd) /\ apr_all t (concat pkts) = (pkts, RTooShort).
+Proof.
+  intros t pkts Ht H.
+  assert (Hok : bytes_ok (concat pkts) = true).
+  { induction pkts as [|p pkts IH]; [reflexivity|].
+    simpl in H. apply andb_true_iff in H. destruct H as [Hp Hr].
+    simpl. rewrite bytes_ok_app, (IH Hr).
+    destruct (wf_packet_shape _ _ Ht Hp) as (ty & i & h & b & _ & _ & _ & _ & _ & _ & _ & Hb).
+    rewrite Hb. reflexivity. }
+  assert (Hs : push_summary t (concat pkts) = (pkts, RAtEnd)).
+  { unfold push_summary. rewrite feed_stream_all by assumption. cbn [is_init reset p_st p_pkt p_info p_needed].
+    f_equal. clear. induction pkts; simpl; congruence. }
+  split; [assumption|]. split.
+  - rewrite pull_push_agree by assumption. assumption.
+  - rewrite async_pull_push_agree, Hs by assumption. reflexivity.
+Qed.
+
+(* ------------------------------------------------------------------ USB splitter *)
+Section Splitter.
+Variables lo ls : Z.
+Hypothesis Hlo : 0 <= lo.
+Hypothesis Hls : 1 <= ls.
+
+Local Notation plen pkt := (lo + ls + le_decode (take ls (drop lo pkt))).
+
+Lemma wf_endpoint_facts : forall e, wf_endpoint_packet lo ls e = true ->
+  bytes_ok e = true /\ lo + ls <= len e /\ len e = plen e.
+Proof.
+  intros e H. unfold wf_endpoint_packet in H. cbv zeta in H.
+  apply andb_true_iff in H. destruct H as [H H3].
+  apply andb_true_iff in H. destruct H as [H1 H2].
+  apply Z.leb_le in H2. apply Z.eqb_eq in H3. auto.
+Qed.
+
+(* once the header is complete the packet length is known *)
+Lemma plen_prefix : forall e p x, wf_endpoint_packet lo ls e = true -> e = p ++ x ->
+  lo + ls <= len p -> plen p = len e.
+Proof.
+  intros e p x He -> Hp. destruct (wf_endpoint_facts _ He) as (_ & _ & Hl).
+  rewrite Hl. rewrite field_app by lia. reflexivity.
+Qed.
+
+(* a chunk that ends strictly inside the current packet is only accumulated *)
+Lemma split_iter_partial : forall e pkt d r', wf_endpoint_packet lo ls e = true ->
+  e = pkt ++ d ++ r' -> r' <> [] -> split_iter lo ls pkt d = (pkt ++ d, [], []).
+Proof.
+  intros e pkt d r' He Heq Hr.
+  destruct (wf_endpoint_facts _ He) as (_ & Hhs & _).
+  assert (Hr1 : 1 <= len r').
+  { destruct r'; [congruence|]. rewrite len_cons. pose proof (len_nonneg r'). lia. }
+  assert (Hlen : len e = len pkt + len d + len r') by (rewrite Heq, !len_app; lia).
+  pose proof (len_nonneg pkt). pose proof (len_nonneg d).
+  unfold split_iter.
+  destruct (0 <? lo + ls - len pkt) eqn:Hbn.
+  - apply Z.ltb_lt in Hbn.
+    destruct (Z_lt_le_dec (len pkt + len d) (lo + ls)) as [Hs|Hge].
+    + rewrite take_all, drop_all by lia.
+      replace (len (pkt ++ d) <? lo + ls) with true by (symmetry; apply Z.ltb_lt; rewrite len_app; lia).
+      reflexivity.
+    + destruct (split_at (lo + ls - len pkt) d) as (a & d2 & -> & Ha); [lia|].
+      rewrite <- Ha, take_app_len, drop_app_len.
+      replace (len (pkt ++ a) <? lo + ls) with false by (symmetry; apply Z.ltb_ge; rewrite len_app; lia).
+      assert (Hsplit : e = (pkt ++ a) ++ d2 ++ r') by (rewrite Heq, <- !app_assoc; reflexivity).
+      assert (Hpa : lo + ls <= len (pkt ++ a)) by (rewrite len_app; lia).
+      rewrite (plen_prefix e (pkt ++ a) (d2 ++ r') He Hsplit Hpa).
+      rewrite !len_app in Hlen.
+      rewrite take_all, drop_all by (rewrite ?len_app; lia).
+      replace (len ((pkt ++ a) ++ d2) =? len e) with false
+        by (symmetry; apply Z.eqb_neq; rewrite !len_app; lia).
+      rewrite <- app_assoc. reflexivity.
+  - apply Z.ltb_ge in Hbn.
+    rewrite (plen_prefix e pkt (d ++ r') He Heq) by lia.
+    rewrite take_all, drop_all by lia.
+    replace (len (pkt ++ d) =? len e) with false by (symmetry; apply Z.eqb_neq; rewrite len_app; lia).
+    reflexivity.
+Qed.
+
+(* a chunk that contains the rest of the current packet completes it in one iteration *)
+Lemma split_iter_complete : forall e pkt r1 c', wf_endpoint_packet lo ls e = true ->
+  e = pkt ++ r1 -> r1 <> [] -> split_iter lo ls pkt (r1 ++ c') = ([], [e], c').
+Proof.
+  intros e pkt r1 c' He Heq Hr.
+  destruct (wf_endpoint_facts _ He) as (_ & Hhs & _).
+  assert (Hr1 : 1 <= len r1).
+  { destruct r1; [congruence|]. rewrite len_cons. pose proof (len_nonneg r1). lia. }
+  assert (Hlen : len e = len pkt + len r1) by (rewrite Heq, len_app; lia).
+  pose proof (len_nonneg pkt).
+  unfold split_iter.
+  destruct (0 <? lo + ls - len pkt) eqn:Hbn.
+  - apply Z.ltb_lt in Hbn.
+    destruct (split_at (lo + ls - len pkt) r1) as (a & r2 & -> & Ha); [lia|].
+    rewrite <- app_assoc, <- Ha, take_app_len, drop_app_len.
+    replace (len (pkt ++ a) <? lo + ls) with false by (symmetry; apply Z.ltb_ge; rewrite len_app; lia).
+    assert (Hsplit : e = (pkt ++ a) ++ r2) by (rewrite Heq, <- !app_assoc; reflexivity).
+    assert (Hpa : lo + ls <= len (pkt ++ a)) by (rewrite len_app; lia).
+    rewrite (plen_prefix e (pkt ++ a) r2 He Hsplit Hpa).
+    rewrite len_app in Hlen.
+    replace (len e - len (pkt ++ a)) with (len r2) by (rewrite len_app; lia).
+    rewrite take_app_len, drop_app_len.
+    replace ((pkt ++ a) ++ r2) with e by (rewrite Heq, app_assoc; reflexivity).
+    rewrite Z.eqb_refl. reflexivity.
+  - apply Z.ltb_ge in Hbn.
+    rewrite (plen_prefix e pkt r1 He Heq) by lia.
+    replace (len e - len pkt) with (len r1) by lia.
+    rewrite take_app_len, drop_app_len, <- Heq, Z.eqb_refl. reflexivity.
+Qed.
+
+(* the state between chunks: [pkt] is a proper prefix of the next packet of [es], the
+   packets not yet emitted; [rest] is what is still to be fed *)
+Definition sinv (pkt rest : list Z) (es : list (list Z)) : Prop :=
+  pkt ++ rest = concat es /\ forallb (wf_endpoint_packet lo ls) es = true /\
+  match es with [] => True | e :: _ => len pkt < len e end.
+
+Lemma sinv_head : forall pkt rest e es, sinv pkt rest (e :: es) ->
+  wf_endpoint_packet lo ls e = true /\ forallb (wf_endpoint_packet lo ls) es = true /\
+  exists r1, e = pkt ++ r1 /\ r1 <> [] /\ rest = r1 ++ concat es.
+Proof.
+  intros pkt rest e es (Hc & Hwf & Hl). simpl in Hwf. apply andb_true_iff in Hwf.
+  destruct Hwf as [He Hes]. split; [assumption|]. split; [assumption|].
+  simpl in Hc. destruct (app_eq_cut pkt e rest (concat es) Hc) as (m & Hm & Hr); [lia|].
+  exists m. repeat split; try assumption. intros ->. rewrite app_nil_r in Hm. subst. lia.
+Qed.
+
+Lemma wf_endpoint_nonempty : forall e, wf_endpoint_packet lo ls e = true -> 0 < len e.
+Proof. intros e He. destruct (wf_endpoint_facts _ He) as (_ & H & _). lia. Qed.
+
+Lemma sinv_start : forall es rest, forallb (wf_endpoint_packet lo ls) es = true ->
+  rest = concat es -> sinv [] rest es.
+Proof.
+  intros es rest H ->. split; [reflexivity|]. split; [assumption|].
+  destruct es as [|e es]; [exact I|]. simpl in H. apply andb_true_iff in H.
+  rewrite len_nil. apply wf_endpoint_nonempty. tauto.
+Qed.
+
+Lemma split_loop_step : forall es pkt c rest fuel, sinv pkt (c ++ rest) es ->
+  (length c < fuel)%nat ->
+  exists pkt' outs es', split_loop lo ls fuel pkt c = (pkt', outs, Ok) /\
+    es = outs ++ es' /\ sinv pkt' rest es'.
+Proof.
+  induction es as [|e es IH]; intros pkt c rest fuel Hinv Hf.
+  - destruct Hinv as (Hc & _ & _). simpl in Hc.
+    apply app_eq_nil in Hc. destruct Hc as [-> Hc]. apply app_eq_nil in Hc. destruct Hc as [-> ->].
+    exists [], [], []. split; [destruct fuel; reflexivity|]. split; [reflexivity|].
+    split; [reflexivity|]. split; [reflexivity|exact I].
+  - destruct (sinv_head _ _ _ _ Hinv) as (He & Hes & r1 & Heq & Hr1 & Hrest).
+    destruct (Z_lt_le_dec (len c) (len r1)) as [Hs|Hge].
+    + (* the chunk ends inside e *)
+      symmetry in Hrest.
+      destruct (app_eq_cut c r1 rest (concat es) (eq_sym Hrest)) as (r' & Hr' & Hrest'); [lia|].
+      assert (r' <> []). { intros ->. rewrite app_nil_r in Hr'. subst. lia. }
+      exists (pkt ++ c), [], (e :: es). split.
+      * destruct c as [|x c]; [rewrite app_nil_r; destruct fuel; reflexivity|].
+        destruct fuel as [|fuel]; [simpl in Hf; lia|].
+        cbn [split_loop].
+        rewrite (split_iter_partial e pkt (x :: c) r' He) by (subst; auto).
+        destruct fuel; reflexivity.
+      * split; [reflexivity|]. split; [|split].
+        -- rewrite <- app_assoc. destruct Hinv as (Hc & _). exact Hc.
+        -- simpl. rewrite He, Hes. reflexivity.
+        -- rewrite Heq, Hr', !len_app. destruct r'; [congruence|]. rewrite len_cons.
+           pose proof (len_nonneg r'). lia.
+    + (* the chunk completes e *)
+      destruct (app_eq_cut r1 c (concat es) rest (eq_sym Hrest) Hge) as (c' & -> & Hc').
+      destruct fuel as [|fuel]; [lia|].
+      assert (Hr1n : (0 < length r1)%nat).
+      { destruct r1; [congruence|]. simpl. lia. }
+      destruct (IH [] c' rest fuel) as (pkt' & outs & es' & Hrun & Hes' & Hinv').
+      { apply sinv_start; auto. }
+      { rewrite app_length in Hf. lia. }
+      exists pkt', (e :: outs), es'. split.
+      * destruct r1 as [|x r1]; [congruence|].
+        change ((x :: r1) ++ c') with (x :: (r1 ++ c')).
+        cbn [split_loop]. change (x :: r1 ++ c') with ((x :: r1) ++ c').
+        rewrite (split_iter_complete e pkt (x :: r1) c' He Heq) by congruence.
+        rewrite Hrun. reflexivity.
+      * split; [simpl; rewrite Hes'; reflexivity|assumption].
+Qed.
+
+Lemma split_feeds_inv : forall chunks pkt rest es, sinv pkt (concat chunks ++ rest) es ->
+  exists pkt' outs es', split_feeds lo ls pkt chunks = (pkt', outs) /\
+    es = concat outs ++ es' /\ sinv pkt' rest es'.
+Proof.
+  induction chunks as [|c chunks IH]; intros pkt rest es Hinv.
+  - exists pkt, [], es. auto.
+  - simpl concat in Hinv. rewrite <- app_assoc in Hinv.
+    destruct (split_loop_step es pkt c (concat chunks ++ rest) (S (S (length c))) Hinv)
+      as (pkt1 & o1 & es1 & Hrun & Hes & Hinv1); [lia|].
+    destruct (IH pkt1 rest es1 Hinv1) as (pkt2 & o2 & es2 & Hrun2 & Hes2 & Hinv2).
+    exists pkt2, (o1 :: o2), es2. split.
+    + cbn [split_feeds]. unfold split_feed. rewrite Hrun, Hrun2. reflexivity.
+    + split; [|assumption]. simpl. rewrite <- app_assoc, <- Hes2. assumption.
+Qed.
+
+Lemma whole_within_done : forall E es pkt, forallb (wf_endpoint_packet lo ls) E = true ->
+  match es with [] => pkt = [] | e :: _ => len pkt < len e end ->
+  whole_within (E ++ es) (len (concat E ++ pkt)) = E.
+Proof.
+  induction E as [|e E IH]; intros es pkt HE Hes.
+  - simpl. destruct es as [|e es]; [reflexivity|]. simpl.
+    replace (len e <=? len pkt) with false by (symmetry; apply Z.leb_gt; lia). reflexivity.
+  - simpl in HE. apply andb_true_iff in HE. destruct HE as [He HE].
+    cbn [app concat whole_within]. rewrite <- app_assoc, len_app.
+    pose proof (len_nonneg (concat E ++ pkt)).
+    replace (len e <=? len e + len (concat E ++ pkt)) with true by (symmetry; apply Z.leb_le; lia).
+    replace (len e + len (concat E ++ pkt) - len e) with (len (concat E ++ pkt)) by lia.
+    rewrite IH by assumption. reflexivity.
+Qed.
+
+(* none early / none late for the splitter, after any number of chunks *)
+Lemma split_none_early : forall es chunks1 rest,
+  forallb (wf_endpoint_packet lo ls) es = true -> concat es = concat chunks1 ++ rest ->
+  concat (snd (split_feeds lo ls [] chunks1)) = whole_within es (len (concat chunks1)).
+Proof.
+  intros es chunks1 rest Hes Hc.
+  destruct (split_feeds_inv chunks1 [] rest es) as (pkt' & outs & es' & Hrun & Hsplit & Hinv).
+  { apply sinv_start; auto. }
+  rewrite Hrun. simpl.
+  destruct Hinv as (Hc' & Hwf' & Hhd).
+  assert (HE : forallb (wf_endpoint_packet lo ls) (concat outs) = true).
+  { rewrite Hsplit, forallb_app in Hes. apply andb_true_iff in Hes. tauto. }
+  assert (Hpre : concat chunks1 = concat (concat outs) ++ pkt').
+  { rewrite Hsplit, concat_app, <- Hc' in Hc. rewrite app_assoc in Hc.
+    destruct (app_eq_len (concat (concat outs) ++ pkt') (concat chunks1) rest rest) as [E _]; auto.
+    apply (f_equal len) in Hc. rewrite !len_app in Hc. rewrite len_app. lia. }
+  rewrite Hpre, Hsplit. symmetry. apply whole_within_done; [assumption|].
+  destruct es' as [|e es']; [|assumption].
+  simpl in Hc'. apply app_eq_nil in Hc'. tauto.
+Qed.
+
+(* chunking irrelevance for the splitter *)
+Lemma split_chunking : forall es chunks,
+  forallb (wf_endpoint_packet lo ls) es = true -> concat chunks = concat es ->
+  fst (split_feeds lo ls [] chunks) = [] /\ concat (snd (split_feeds lo ls [] chunks)) = es.
+Proof.
+  intros es chunks Hes Hc.
+  destruct (split_feeds_inv chunks [] [] es) as (pkt' & outs & es' & Hrun & Hsplit & Hinv).
+  { apply sinv_start; auto. rewrite app_nil_r. assumption. }
+  rewrite Hrun. simpl. destruct Hinv as (Hc' & Hwf' & Hhd). rewrite app_nil_r in Hc'.
+  destruct es' as [|e es'].
+  - simpl in Hc'. subst pkt'. rewrite app_nil_r in Hsplit. auto.
+  - exfalso. rewrite Hc' in Hhd. simpl in Hhd. rewrite len_app in Hhd.
+    pose proof (len_nonneg (concat es')). lia.
+Qed.
+
+(* every call of the splitter terminates normally on such streams *)
+Lemma split_feed_ok : forall es pkt c rest, sinv pkt (c ++ rest) es ->
+  snd (split_feed lo ls pkt c) = Ok.
+Proof.
+  intros es pkt c rest Hinv.
+  destruct (split_loop_step es pkt c rest (S (S (length c))) Hinv) as (p & o & e & Hrun & _); [lia|].
+  unfold split_feed. rewrite Hrun. reflexivity.
+Qed.
+
+End Splitter.
+
+(* an HCI packet of type ty is the type byte followed by a well-formed endpoint packet *)
+Lemma wf_packet_endpoint : forall t ty i e, lookup t ty = Some i ->
+  wf_packet t (ty :: e) = true -> wf_endpoint_packet (i_lo i) (i_ls i) e = true.
+Proof.
+  intros t ty i e Hl H. unfold wf_packet in H. rewrite Hl in H.
+  apply andb_true_iff in H. destruct H as [H H3].
+  apply andb_true_iff in H. destruct H as [H1 H2].
+  unfold wf_endpoint_packet.
+  change (ty :: e) with ([ty] ++ e) in H1. rewrite bytes_ok_app in H1.
+  apply andb_true_iff in H1. destruct H1 as [_ H1]. rewrite H1.
+  replace (i_lo i + i_ls i) with (i_ls i + i_lo i) by lia. rewrite H2, H3. reflexivity.
+Qed.
+
+(* USB: for an endpoint whose splitter parameters agree with the table, the packets
+   queued by UsbPacketSource (type byte prepended) for any chunking of the endpoint's
+   stream are exactly the HCI packets, i.e. what the push parser emits for the typed
+   stream in any chunking *)
+Lemma usb_agrees : forall t spl ty lo ls es chunks chunks',
+  wf_table t = true -> splitters_ok t spl = true -> In (ty, (lo, ls)) spl ->
+  forallb (fun e => wf_packet t (ty :: e)) es = true ->
+  concat chunks = concat es -> concat chunks' = concat (map (cons ty) es) ->
+  usb_out ty (concat (snd (split_feeds lo ls [] chunks))) = map (cons ty) es /\
+  fst (split_feeds lo ls [] chunks) = [] /\
+  concat (snd (feeds t reset chunks')) =
+    map Packet (usb_out ty (concat (snd (split_feeds lo ls [] chunks)))).
+Proof.
+  intros t spl ty lo ls es chunks chunks' Ht Hspl Hin Hes Hc Hc'.
+  unfold splitters_ok in Hspl. rewrite forallb_forall in Hspl.
+  specialize (Hspl _ Hin). unfold splitter_ok in Hspl.
+  destruct (lookup t ty) as [i|] eqn:Hl; [|discriminate].
+  apply andb_true_iff in Hspl. destruct Hspl as [Hspl H4].
+  apply andb_true_iff in Hspl. destruct Hspl as [Hspl H3].
+  apply andb_true_iff in Hspl. destruct Hspl as [H1 H2].
+  apply Z.eqb_eq in H1. apply Z.eqb_eq in H2. apply Z.leb_le in H3. apply Z.leb_le in H4.
+  subst lo ls.
+  assert (Hes' : forallb (wf_endpoint_packet (i_lo i) (i_ls i)) es = true).
+  { rewrite forallb_forall in *. intros e He. eapply wf_packet_endpoint; eauto. }
+  destruct (split_chunking (i_lo i) (i_ls i) H3 H4 es chunks Hes' Hc) as [Hs Ho].
+  rewrite Ho. split; [reflexivity|]. split; [assumption|].
+  apply chunking_irrelevant; try assumption.
+  rewrite forallb_forall in *. intros p Hp. apply in_map_iff in Hp.
+  destruct Hp as (e & <- & He). auto.
+Qed.
+
+Lemma splitter_entry : forall t spl ty lo ls, splitters_ok t spl = true -> In (ty, (lo, ls)) spl ->
+  exists i, lookup t ty = Some i /\ i_lo i = lo /\ i_ls i = ls /\ 0 <= lo /\ 1 <= ls.
+Proof.
+  intros t spl ty lo ls Hspl Hin.
+  unfold splitters_ok in Hspl. rewrite forallb_forall in Hspl.
+  specialize (Hspl _ Hin). unfold splitter_ok in Hspl.
+  destruct (lookup t ty) as [i|] eqn:Hl; [|discriminate].
+  apply andb_true_iff in Hspl. destruct Hspl as [Hspl H4].
+  apply andb_true_iff in Hspl. destruct Hspl as [Hspl H3].
+  apply andb_true_iff in Hspl. destruct Hspl as [H1 H2].
+  apply Z.eqb_eq in H1. apply Z.eqb_eq in H2. apply Z.leb_le in H3. apply Z.leb_le in H4.
+  exists i. auto.
+Qed.
+
+(* USB: none early / none late after any number of transfers *)
+Lemma usb_none_early : forall t spl ty lo ls es chunks1 rest,
+  splitters_ok t spl = true -> In (ty, (lo, ls)) spl ->
+  forallb (fun e => wf_packet t (ty :: e)) es = true ->
+  concat es = concat chunks1 ++ rest ->
+  concat (snd (split_feeds lo ls [] chunks1)) = whole_within es (len (concat chunks1)).
+Proof.
+  intros t spl ty lo ls es chunks1 rest Hspl Hin Hes Hc.
+  destruct (splitter_entry _ _ _ _ _ Hspl Hin) as (i & Hl & <- & <- & H3 & H4).
+  apply (split_none_early (i_lo i) (i_ls i) H3 H4 es chunks1 rest); [|assumption].
+  rewrite forallb_forall in *. intros e He. eapply wf_packet_endpoint; eauto.
+Qed.
+
+(* ------------------------------------------------------------------ reachable states *)
+(* bytes_needed is never negative, so the model's loop guard [0 <? needed] is exactly
+   Python's truth value of `self.bytes_needed` in every state the parser can reach *)
+Definition pgood (s : parser) : Prop := 0 <= p_needed s /\ bytes_ok (p_pkt s) = true.
+
+Lemma fin_good : forall t s s1 o r, wf_table t = true -> pgood s -> fin t s = (s1, o, r) -> pgood s1.
+Proof.
+  intros t [st n p i] s1 o r Ht [Hn Hp] H. unfold fin in H.
+  cbn [p_st p_pkt p_info p_needed] in *. destruct st.
+  - destruct (lookup t (hd 0 p)) as [j|] eqn:Hl.
+    + cbn in H. inversion H; subst. destruct (lookup_wf _ _ _ Ht Hl) as (H1 & H2 & _).
+      split; simpl; [lia|assumption].
+    + inversion H; subst. split; simpl; [lia|reflexivity].
+  - cbn [p_st p_needed p_pkt] in H.
+    set (L := le_decode _) in H.
+    assert (0 <= L) by (apply le_decode_nonneg, bytes_ok_take, bytes_ok_drop; assumption).
+    destruct (L =? 0); inversion H; subst; split; simpl; try lia; auto.
+  - cbn [p_st p_needed p_pkt] in H.
+    destruct (n =? 0); inversion H; subst; split; simpl; try lia; auto.
+Qed.
+
+Lemma feed_good_n : forall t n d s, wf_table t = true -> (length d <= n)%nat ->
+  pgood s -> bytes_ok d = true -> pgood (fst (fst (feed t s d))).
+Proof.
+  induction n as [|n IH]; intros d s Ht Hl Hs Hd.
+  - destruct d; [|simpl in Hl; lia]. exact Hs.
+  - rewrite feed_unfold. destruct (guard s d) eqn:Hg; [|exact Hs].
+    destruct (body t s d) as [[[s1 o1] r] rest] eqn:Hb.
+    pose proof (body_shrinks _ _ _ _ _ _ _ Hg Hb) as Hsh.
+    pose proof (body_rest t s d) as Hr. rewrite Hb in Hr. simpl in Hr.
+    apply guard_true in Hg. destruct Hg as [Hn Hd0].
+    assert (Hs1 : pgood s1).
+    { unfold body in Hb.
+      set (c := Z.min (p_needed s) (len d)) in *.
+      assert (Ha : pgood (acc s (take c d))).
+      { destruct Hs as [Hs1 Hs2]. split; simpl.
+        - rewrite len_take by (unfold c; lia). unfold c. lia.
+        - rewrite bytes_ok_app, Hs2, bytes_ok_take by assumption. reflexivity. }
+      destruct (p_needed (acc s (take c d)) =? 0).
+      - destruct (fin t _) as [[s2 o2] r2] eqn:Hf. inversion Hb; subst.
+        eapply fin_good; eauto.
+      - inversion Hb; subst. assumption. }
+    destruct r; [exact Hs1|].
+    specialize (IH rest s1 Ht).
+    destruct (feed t s1 rest) as [[s2 o2] st2]. simpl in *. apply IH; try assumption; try lia.
+    subst rest. apply bytes_ok_drop. assumption.
+Qed.
+
+Lemma feed_needed_nonneg : forall t chunks s, wf_table t = true -> pgood s ->
+  forallb bytes_ok chunks = true -> pgood (fst (feeds t s chunks)).
+Proof.
+  intros t chunks. induction chunks as [|c chunks IH]; intros s Ht Hs Hc; [exact Hs|].
+  simpl in Hc. apply andb_true_iff in Hc. destruct Hc as [Hc1 Hc2].
+  simpl. pose proof (feed_good_n t (length c) c s Ht (le_n _) Hs Hc1) as H1.
+  destruct (feed t s c) as [[s1 o1] st1]. simpl in H1.
+  specialize (IH s1 Ht H1 Hc2). destruct (feeds t s1 chunks). exact IH.
+Qed.
